@@ -1,0 +1,32 @@
+//go:build verif
+
+// Contracts for govc (contract-based deductive verification, /verif). Comment-only file:
+// it is compiled only under the build tag "verif" and contains no code.
+
+package bfe_spdy
+
+//@ spec flowAvail(f *flow) int32 := f.conn != nil && f.conn.n < f.n ? f.conn.n : f.n
+
+//@ func (*flow).available
+//@   props C40
+//@   nopanic
+//@   requires f != nil
+//@   modifies nothing
+//@   ensures[min_of_stream_and_conn_window] result0 == flowAvail(f)
+
+//@ func (*flow).take
+//@   props C40
+//@   nopanic
+//@   requires f != nil && f.conn != f
+//@   requires[never_more_than_available] 0 <= n && n <= flowAvail(f)
+//@   modifies f.n, f.conn.n
+//@   ensures[both_windows_shrink_by_n] f.n == old(f.n) - n && (f.conn != nil ==> f.conn.n == old(f.conn.n) - n)
+
+//@ func (*flow).add
+//@   props C40
+//@   nopanic
+//@   requires f != nil
+//@   modifies f.n
+//@   ensures[refused_iff_sum_not_representable] result0 <==> (-2147483648 <= old(f.n) + n && old(f.n) + n <= 2147483647)
+//@   ensures[added] result0 ==> f.n == old(f.n) + n
+//@   ensures[unchanged_when_refused] !result0 ==> f.n == old(f.n)
